@@ -17,7 +17,8 @@ use std::str::FromStr;
 use trusted_proxies::RequestInformation;
 use url::form_urlencoded::parse as parse_query;
 
-const QUERY_ENCODE_SET: &AsciiSet = &CONTROLS.add(b' ').add(b'"').add(b'#').add(b'<').add(b'>');
+// A decoded `%` is written `%25`: left as it is, the value `%20` could not be told from a space
+const QUERY_ENCODE_SET: &AsciiSet = &CONTROLS.add(b' ').add(b'"').add(b'#').add(b'<').add(b'>').add(b'%');
 
 #[derive(Serialize, Deserialize, Debug, Clone, Hash)]
 pub struct Request {
